@@ -94,6 +94,12 @@ def classify(code):
 
 
 GROUP_MAX = 4
+# quick tier must finish within 900 s from a cold cache on 16 cores: one memory-operand pattern per
+# mnemonic file (None = no memory shape in quick), accumulator-immediate forms of two ALU mnemonics only
+QUICK_MEM_PATTERN = {"add": "rm_r", "adc": "r_rm", "sub": "rm_imm", "and": "rm_imm", "xor": "rm_r", "cmp": "r_rm", "test": "rm_r",
+                     "mov": "rm_r", "shl": "rm_CL", "shr": "rm_imm", "cmovae": None, "cmovne": None, "setb": None, "setne": None,
+                     "nop": None, "dec": None, "not": None}
+QUICK_PLAIN_SKIP = {"adc", "and", "xor", "cmp", "test"}
 THOROUGH = [False]
 IMM_KINDS = {"Immediate8", "Immediate8_2nd", "Immediate16", "Immediate32", "Immediate64", "Immediate8to16",
              "Immediate8to32", "Immediate8to64", "Immediate32to64"}
@@ -266,10 +272,17 @@ def generate(sc, tier, seed):
             # widest width in the memory shape; every control-transfer and stack form
             if htier == "quick" and cls["klass"] == "data":
                 ws = pattern_widths.get((form["file"], base_pattern), {cls["w"]})
+                fkey = form["file"][:-3]
                 if shape == "mem":
                     if cls["w"] != max(ws):
                         htier = "thorough"
+                    elif fkey in QUICK_MEM_PATTERN and base_pattern != QUICK_MEM_PATTERN[fkey]:
+                        htier = "thorough"  # one memory-operand pattern per mnemonic in the quick tier (900 s budget)
                 elif cls["w"] not in (8, 64) and (8 in ws or 64 in ws):
+                    htier = "thorough"
+                elif shape == "plain" and fkey in QUICK_PLAIN_SKIP:
+                    htier = "thorough"
+                elif shape == "plain" and fkey == "mov" and cls["w"] != 64:
                     htier = "thorough"
             if not thorough and htier != "quick":
                 continue
